@@ -352,6 +352,6 @@ class Ref:
             for sidx, byname in self.states_in_space(t):
                 senv = {s: self.grid[s][i] for s, i in byname.items()}
                 cands = self.choice_candidates(senv, t, Vnext)
-                Vt[sidx] = self.simplify_x(masked_max([(f, q) for (_, _, f, q) in cands]))
+                Vt[sidx] = sj.tag(self.simplify_x(masked_max([(f, q) for (_, _, f, q) in cands])))
             V[t] = Vt
         return V
